@@ -55,6 +55,7 @@ type scenario struct {
 	K        int    `json:"k"`
 	Downtime int    `json:"downtime"`
 	Mode     string `json:"mode"`
+	Gw       bool   `json:"gw"` // phase 2: two REAL store gateways (store.BucketStore) watch the bucket
 }
 
 func downtimeHours(ticks int) int {
@@ -165,10 +166,15 @@ type rawEvent struct {
 	Hours   int        `json:"hours"`
 	NMut    int        `json:"nmut"`
 	Blocks  []blockObs `json:"blocks"`
+	Gw      []any      `json:"gw,omitempty"`
 }
 
 func (e *emitter) emit(r rawEvent) {
-	ev := vt.Event{"ev": r.Ev, "case": e.c, "blocks": e.blocks(r.Blocks)}
+	gw := r.Gw
+	if gw == nil {
+		gw = []any{}
+	}
+	ev := vt.Event{"ev": r.Ev, "case": e.c, "blocks": e.blocks(r.Blocks), "gw": gw}
 	switch r.Ev {
 	case "Block":
 		src := make([]int, 0, len(r.Src))
@@ -197,18 +203,54 @@ func (e *emitter) emit(r rawEvent) {
 
 // runner executes compactor runs over one bucket and produces raw events.
 type runner struct {
-	w       *world
-	lay     layoutDef
-	conc    int
-	inner   objstore.Bucket
-	rec     *bucketrec.Bucket
-	obs     *observer
-	dataDir string
-	scratch string
-	out     func(rawEvent)
-	read    map[string]bool // blocks whose content was already reported
-	mu      sync.Mutex
-	ops     []bucketrec.Op // mutations of the current run that changed the bucket
+	w         *world
+	lay       layoutDef
+	conc      int
+	inner     objstore.Bucket
+	rec       *bucketrec.Bucket
+	obs       *observer
+	dataDir   string
+	scratch   string
+	out       func(rawEvent)
+	read      map[string]bool // blocks whose content was already reported
+	mu        sync.Mutex
+	ops       []bucketrec.Op // mutations of the current run that changed the bucket
+	gws       []*gateway     // real store gateways (phase 2), nil in most scenarios
+	keepReads bool           // record read calls too (reference runs count them)
+	oneRead   bool           // mode "readfault": the fault of the crashing run is ONE failing read (the crashAt-th), not an outage
+}
+
+// gwObserve: what the real gateways serve now.  timePassed: every gateway syncs (they sync at least every
+// 23 h); otherwise only the non-lagging gateway syncs (it follows the bucket mutation by mutation).
+func (r *runner) gwObserve(timePassed bool) []any {
+	if len(r.gws) == 0 {
+		return nil
+	}
+	out := make([]any, 0, len(r.gws))
+	for _, g := range r.gws {
+		out = append(out, g.observe(timePassed || !g.lagging))
+	}
+	return out
+}
+
+func (r *runner) startGateways() {
+	for _, g := range []*gateway{{name: "fresh"}, {name: "lagging", lagging: true}} {
+		g.inner, g.scratch, g.w = r.inner, r.scratch, r.w
+		if err := g.start(); err != nil {
+			panic(err)
+		}
+		if e := g.sync(); e != "" {
+			panic("gateway initial " + e)
+		}
+		r.gws = append(r.gws, g)
+	}
+}
+
+func (r *runner) stopGateways() {
+	for _, g := range r.gws {
+		g.stop()
+	}
+	r.gws = nil
 }
 
 func newRunner(w *world, conc int, inner objstore.Bucket, dataDir, scratch string, out func(rawEvent), origRead bool) *runner {
@@ -244,7 +286,7 @@ func (r *runner) reportNew(snap []blockObs) {
 // before the crashAt-th mutation: outage (in process) or exit (child process, exitMode).
 func (r *runner) run(name string, crashAt int, exitMode bool) (err error, crashed bool) {
 	r.rec.Reset()
-	r.rec.RecordReads(false)
+	r.rec.RecordReads(r.keepReads)
 	r.rec.SetPhase(name)
 	r.mu.Lock()
 	r.ops = nil
@@ -261,12 +303,15 @@ func (r *runner) run(name string, crashAt int, exitMode bool) (err error, crashe
 		r.mu.Lock()
 		r.ops = append(r.ops, op)
 		r.mu.Unlock()
-		r.out(rawEvent{Ev: "Mut", Op: op.Kind, Name: op.Name, Kind: mutKind(op), Run: name, Blocks: snap})
+		r.out(rawEvent{Ev: "Mut", Op: op.Kind, Name: op.Name, Kind: mutKind(op), Run: name, Blocks: snap, Gw: r.gwObserve(false)})
 	})
 	if crashAt > 0 {
-		if exitMode {
+		switch {
+		case exitMode:
 			r.rec.ExitBeforeMutation(crashAt, 3)
-		} else {
+		case r.oneRead:
+			r.rec.FailRead(func(kind, name string) bool { return true }, crashAt, nil)
+		default:
 			r.rec.OutageFromMutation(crashAt)
 		}
 	}
@@ -296,16 +341,35 @@ func (r *runner) quiet(name string, err error, crashed bool) {
 	r.mu.Lock()
 	n := len(r.ops)
 	r.mu.Unlock()
-	r.out(rawEvent{Ev: "Quiet", Run: name, Err: es, Crashed: crashed, NMut: n, Blocks: snap})
-}
-
-func (r *runner) tick(hours int) {
-	if hours > 0 {
-		if err := ageMarks(r.inner, time.Duration(hours)*time.Hour); err != nil {
-			panic(err)
+	for _, g := range r.gws {
+		if !g.lagging { // a gateway restart: fresh BucketStore, empty local dir, same bucket
+			if err := g.restart(); err != nil {
+				panic(err)
+			}
 		}
 	}
-	r.out(rawEvent{Ev: "Tick", Hours: hours, Blocks: r.obs.snapshot(r.inner, time.Now())})
+	r.out(rawEvent{Ev: "Quiet", Run: name, Err: es, Crashed: crashed, NMut: n, Blocks: snap, Gw: r.gwObserve(false)})
+}
+
+// tick lets time pass in steps of at most 23 h (the gateways' sync lag stays below the 24 h difference of the
+// delays): marks are back-dated, every gateway syncs, the bucket is observed.
+func (r *runner) tick(hours int) {
+	for left := hours; ; {
+		step := left
+		if step > 23 {
+			step = 23
+		}
+		if step > 0 {
+			if err := ageMarks(r.inner, time.Duration(step)*time.Hour); err != nil {
+				panic(err)
+			}
+		}
+		r.out(rawEvent{Ev: "Tick", Hours: step, Blocks: r.obs.snapshot(r.inner, time.Now()), Gw: r.gwObserve(true)})
+		left -= step
+		if left <= 0 {
+			break
+		}
+	}
 }
 
 // ---- child process of the process-death mode ----
@@ -424,15 +488,29 @@ func (e *env) reference(layout string, conc int) map[string][]string {
 		}
 		return out
 	}
+	var nreads int
+	countReads := func() {
+		nreads = 0
+		for _, op := range r.rec.Ops() {
+			if !op.IsMutation() {
+				nreads++
+			}
+		}
+	}
+	r.keepReads = true
 	if err, _ := r.run("A", 0, false); err != nil {
 		e.t.Fatalf("reference run A of %s failed: %v", layout, err)
 	}
+	countReads()
 	ref["compact"] = kinds()
+	ref["reads-compact"] = make([]string, nreads)
 	ageMarks(inner, 49*time.Hour)
 	if err, _ := r.run("C", 0, false); err != nil {
 		e.t.Fatalf("reference run C of %s failed: %v", layout, err)
 	}
+	countReads()
 	ref["clean"] = kinds()
+	ref["reads-clean"] = make([]string, nreads)
 	e.mu.Lock()
 	e.refs[key] = ref
 	e.mu.Unlock()
@@ -509,7 +587,7 @@ func (e *env) runScenario(in vt.Case) {
 	}
 	in["kresolved"] = k
 	em.put(vt.Event{"ev": "case", "case": cid, "in": in, "kf": "", "orig": orig, "ntok": len(w.tokens),
-		"ignoreDelay": int(sgDelay / time.Second), "blocks": []any{}})
+		"ignoreDelay": int(sgDelay / time.Second), "blocks": []any{}, "gw": []any{}})
 
 	dataDir, _ := os.MkdirTemp(e.scratch, "c29data-")
 	defer os.RemoveAll(dataDir)
@@ -537,6 +615,11 @@ func (e *env) runScenario(in vt.Case) {
 		inner = im
 	}
 	r := newRunner(w, sc.Conc, inner, dataDir, e.scratch, em.emit, true)
+	r.oneRead = sc.Mode == "readfault"
+	if sc.Gw && !exit {
+		r.startGateways()
+		defer r.stopGateways()
+	}
 
 	// one run, in process or as a child process
 	doRun := func(name string, crashAt int) {
@@ -626,7 +709,7 @@ func (e *env) runScenario(in vt.Case) {
 		sgIDs = append(sgIDs, em.id(u))
 	}
 	sort.Ints(sgIDs)
-	em.put(vt.Event{"ev": "End", "case": cid, "sg": sgIDs, "blocks": em.blocks(r.obs.snapshot(inner, time.Now()))})
+	em.put(vt.Event{"ev": "End", "case": cid, "sg": sgIDs, "blocks": em.blocks(r.obs.snapshot(inner, time.Now())), "gw": []any{}})
 }
 
 func TestC29(t *testing.T) {
@@ -652,6 +735,11 @@ func TestC29(t *testing.T) {
 		if !vt.Thorough() && vt.Str(c["layout"]) != "aligned5" && vt.Str(c["phase"]) != "none" && vt.Int(c["downtime"]) != 5 {
 			continue
 		}
+		// phase 2: real store gateways on the model's scenarios (thorough: all of them; quick: the crash points
+		// around the result's meta.json and the first source mark / meta.json deletion, longest downtimes)
+		k, o := vt.Str(c["kind"]), vt.Str(c["ord"])
+		c["gw"] = vt.Thorough() || (vt.Int(c["downtime"]) >= 3 && vt.Str(c["layout"]) == "aligned5" && o == "first" && (k == "upmeta" || k == "mark" || k == "delmeta")) ||
+			(vt.Str(c["layout"]) == "replica" && k == "mark" && o == "last")
 		add(c)
 	}
 	// (2) process death on a filesystem bucket: a sample of the model's scenarios (thorough: all with downtime 49 h, compaction-run crashes also with downtime 0)
@@ -700,6 +788,19 @@ func TestC29(t *testing.T) {
 			}
 		}
 		add(vt.Case{"layout": name, "conc": conc, "phase": "none", "kind": "none", "ord": "first", "k": 0, "downtime": 0, "mode": "outage"})
+		// phase 2: ONE read of the run fails (a fault that does not persist): the k-th bucket read of the compaction
+		// run / of the cleaning run; the following runs are fault-free (thorough: every read of three layouts)
+		if name == "aligned5" || name == "replica" || name == "twogroups" {
+			for _, phase := range []string{"compact", "clean"} {
+				n := len(ref["reads-"+phase])
+				for k := 1; k <= n; k++ {
+					if !vt.Thorough() && rnd.Intn(n) >= 3 {
+						continue
+					}
+					add(vt.Case{"layout": name, "conc": conc, "phase": phase, "kind": "", "ord": "", "k": k, "downtime": []int{0, 5}[rnd.Intn(2)], "mode": "readfault", "gw": k%7 == 0})
+				}
+			}
+		}
 	}
 	// worlds and crash-free references are built up front; the scenarios are independent (own bucket, own
 	// data dir) and run on a few workers; each case's events are written contiguously
